@@ -2,12 +2,14 @@ import NemoVerif.Drive.Common
 import NemoVerif.Models.Closed
 import NemoVerif.Models.V1Compile
 import NemoVerif.Models.Expand
+import NemoVerif.Models.ExpandInPlace
+import NemoVerif.Models.ExpandNames
 
 namespace NemoVerif.Drive.C12
 open Lean NemoVerif NemoVerif.Drive
 
 /-! JSON codecs (harness/props/C12.py is the Python twin).
-  Prim:  ["label",n] ["goto",l] ["fork",uid,[l..]] ["merge",uid] ["wait",k] ["catch",l|null] ["break",l|null]
+  Prim:  ["label",n] ["goto",l] (conditional) ["jump",l] (Goto whose expression is the constant True) ["fork",uid,[l..]] ["merge",uid] ["wait",k] ["catch",l|null] ["break",l|null]
          ["continue",l|null] ["begin",n] ["end",n] ["abort"] ["return"] ["op",op,group,retVar] ["assign",nld]
          ["other",kind] ["composite",kind]
   Elem:  {"k":kind,"n":_next|null,"e":_next_else|null,"b":_next_on_break|null,"c":_next_on_continue|null,
@@ -33,6 +35,7 @@ def primOfJson (j : Json) : Except String (Closed.Prim String) := do
   match tag with
   | "label" => pure (.label (← (arg 1).getStr?))
   | "goto" => pure (.goto (← (arg 1).getStr?))
+  | "jump" => pure (.jump (← (arg 1).getStr?))
   | "fork" => pure (.fork (← (arg 1).getStr?) (← strListJ (arg 2)))
   | "merge" => pure (.merge (← (arg 1).getStr?))
   | "wait" => pure (.waitHeads (← (arg 1).getNat?))
@@ -49,7 +52,7 @@ def primOfJson (j : Json) : Except String (Closed.Prim String) := do
   | "composite" => pure (.composite (← (arg 1).getStr?))
   | t => throw s!"bad prim tag {t}"
 
-def renderLbl (l : Expand.Lbl) : String := l.1 ++ toString l.2
+def renderLbl (l : Expand.Lbl) : String := Expand.render l
 
 def optLblJ : Option Expand.Lbl → Json
   | none => .null
@@ -58,6 +61,7 @@ def optLblJ : Option Expand.Lbl → Json
 def primToJsonWith {L : Type} (renderLbl : L → String) : Closed.Prim L → Json
   | .label n => Json.arr #["label", renderLbl n]
   | .goto l => Json.arr #["goto", renderLbl l]
+  | .jump l => Json.arr #["jump", renderLbl l]
   | .fork u ls => Json.arr #["fork", renderLbl u, Json.arr (ls.map fun l => Json.str (renderLbl l)).toArray]
   | .merge u => Json.arr #["merge", renderLbl u]
   | .waitHeads n => Json.arr #["wait", Json.num (JsonNumber.fromNat n)]
@@ -212,6 +216,13 @@ def handle (op : String) (j : Json) : Except String Json := do
     match V1Compile.compileFull items with
     | .ok es => pure (Json.mkObj [("ok", Json.arr (es.map elemToJson).toArray), ("closed", V1Compile.v1Closed es)])
     | .error m => pure (Json.mkObj [("err", m)])
+  | "v1dynamic" =>
+    -- a flow added at run time by `_process_start_flow`: `start_flow` element in front of the compiled body
+    let a ← (← j.getObjVal? "items").getArr?
+    let items ← a.toList.mapM itemOfJson
+    match V1Compile.dynamicFlow items with
+    | .ok es => pure (Json.mkObj [("ok", Json.arr (es.map elemToJson).toArray), ("closed", V1Compile.v1Closed es)])
+    | .error m => pure (Json.mkObj [("err", m)])
   | "expand" =>
     let a ← (← j.getObjVal? "stmts").getArr?
     let ss ← a.toList.mapM stmtOfJson
@@ -223,6 +234,19 @@ def handle (op : String) (j : Json) : Except String Json := do
     let p ← a.toList.mapM primOfJson
     let S := Closed.explore p 6000 [Closed.startHead] [Closed.startHead]
     pure (Json.mkObj [("safe", Closed.closedUnder p S), ("states", Json.num (JsonNumber.fromNat S.length))])
+  | "recompile" =>
+    -- the `k+1`-st compilation of the same parsed flow by the REPAIRED compiler (Models/ExpandInPlace.lean, `ip = false`)
+    let a ← (← j.getObjVal? "stmts").getArr?
+    let ss ← a.toList.mapM stmtOfJson
+    let k ← (← j.getObjVal? "k").getNat?
+    let n ← (← j.getObjVal? "slots").getNat?
+    let p := (Expand.recompile false ss k (List.replicate n none) 0).1
+    pure (Json.mkObj [("prog", Json.arr (p.map primToJson).toArray), ("closed", Closed.closed p)])
+  | "names" =>
+    -- the discipline on user labels (`userLabelOK`, hypothesis of `expand_labels_avoid_user`) and the reserved stems
+    let us ← strListJ (← j.getObjVal? "user")
+    pure (Json.mkObj [("ok", Json.arr (us.map fun u => Json.bool (Expand.userLabelOK u)).toArray),
+      ("stems", Json.arr (Expand.stems.map Json.str).toArray)])
   | "witness" =>
     -- the witness program of the open finding 2.x:scope-reopened (Theorems/C12.lean)
     pure (Json.mkObj [("prog", Json.arr (Closed.whenElseInLoop.map (primToJsonWith id)).toArray)])
